@@ -631,7 +631,7 @@ func exhaustiveC03(thorough bool, emit func(C03Case) bool) {
 		}
 	}
 	// long reads: lines beyond bufio's 4096-byte buffer and beyond 64 KiB
-	for _, n := range []int{4000, 4096, 9000, 40000, 70000, 200000} {
+	for _, n := range []int{4000, 4096, 9000, 40000, 70000, 200000, 1<<21 + 4} {
 		r := baseSamRec
 		r.Seq = gen.B(bytes.Repeat([]byte("ACGT"), n/4))
 		r.Qual = gen.B(bytes.Repeat([]byte("I\"#~"), n/4))
